@@ -21,6 +21,7 @@ Step(e) ==
       [] e.ev = "SetState"    -> SetState(e.subst, e.c, e.phase) /\ UNCHANGED cfg
       [] e.ev = "Feed"        -> Feed(e.F, e.cf, e.order, e.usermap) /\ UNCHANGED cfg
       [] e.ev = "Reassign"    -> Reassign(e.i, e.kv) /\ UNCHANGED cfg
+      [] e.ev = "Sort"        -> SortSubstances /\ UNCHANGED cfg
       [] e.ev = "Build"       -> Build(e.cfg)
       [] OTHER                -> FALSE
 
@@ -76,6 +77,7 @@ NoCatalog == {}
 NoKVals == <<>>
 TrNames == [s \in Species |-> s]
 TrOv == <<>>
+TrSort == <<"A", "B", "C", "D", "E", "G">>
 NoConfigs(n) == {}
 TraceComp == [s \in Species |-> <<>>]
 =============================================================================
